@@ -121,6 +121,14 @@ func (c *wideCircuit) Define(api frontend.API) error {
 	for i := range lvl {
 		acc = api.Add(acc, api.Mul(lvl[i], lvl[(i+7)%len(lvl)]))
 	}
+	// a lookup table inside the wide part of the system; one entry is a multi-term expression
+	// whose last wire is produced by an instruction of the first (parallel) level
+	t := logderivlookup.New(api)
+	t.Insert(c.X[5])
+	t.Insert(api.Add(c.X[6], api.Mul(c.X[7], c.X[8])))
+	t.Insert(api.Add(api.Mul(c.X[9], c.X[10]), c.X[11], 3))
+	q := t.Lookup(c.B[0], api.Add(c.B[1], 1))
+	acc = api.Add(acc, q[0], api.Mul(q[1], 7))
 	api.AssertIsEqual(c.Out, acc)
 	return nil
 }
@@ -146,9 +154,19 @@ func wideWitnesses(rng *rand.Rand, p *big.Int, n int) []Wit {
 			acc.Add(acc, new(big.Int).Mul(lvl[i], lvl[(i+7)%160]))
 		}
 		acc.Mod(acc, p)
+		bits := make([]int, len(a.B))
 		for i := range a.B {
-			a.B[i] = rng.IntN(2)
+			bits[i] = rng.IntN(2)
+			a.B[i] = bits[i]
 		}
+		entries := []*big.Int{
+			new(big.Int).Set(x[5]),
+			new(big.Int).Add(x[6], new(big.Int).Mul(x[7], x[8])),
+			new(big.Int).Add(new(big.Int).Add(new(big.Int).Mul(x[9], x[10]), x[11]), big.NewInt(3)),
+		}
+		acc.Add(acc, entries[bits[0]])
+		acc.Add(acc, new(big.Int).Mul(entries[bits[1]+1], big.NewInt(7)))
+		acc.Mod(acc, p)
 		valid, name := true, "valid"
 		switch k % 4 {
 		case 2:
